@@ -279,6 +279,12 @@ class ParamikoTransport(Transport):
     def isalive(self) -> bool:
         if not self.session:
             return False
+        if self.session_channel and (
+            self.session_channel.closed or self.session_channel.eof_received
+        ):
+            # the device ended the shell; the ssh session underneath may linger (or not have
+            # noticed yet) but there is nothing left to talk to
+            return False
         _isalive: bool = self.session.is_alive()
         return _isalive
 
